@@ -1,6 +1,6 @@
 (* C17/Lemmas.v — proofs about the model of Model.v. *)
 From Common Require Import Prelude.
-From C17 Require Import Model.
+From C17 Require Import Model Player.
 Open Scope Z_scope.
 
 (* ------------------------------------------------------------------------------------------ *)
@@ -16,7 +16,7 @@ Proof. unfold cnt. rewrite filter_app, app_length. reflexivity. Qed.
 Lemma step_outs_no_ev st start c : cnt c (step_outs st start) = 0%nat.
 Proof.
   unfold step_outs, cnt. induction (s_acts st) as [|a l IH]; cbn; [reflexivity|].
-  destruct (snd a =? 0); cbn; exact IH.
+  unfold act_out at 1. destruct (snd a =? 0); [|destruct (snd a =? 6); [|destruct (snd a =? 7)]]; cbn; exact IH.
 Qed.
 
 (* ------------------------------------------------------------------------------------------ *)
@@ -348,7 +348,7 @@ Proof. unfold markers_at. apply flat_map_app. Qed.
 Lemma markers_step_outs d st start : markers_at d (step_outs st start) = [].
 Proof.
   unfold markers_at, step_outs. induction (s_acts st) as [|a l IH]; cbn; [reflexivity|].
-  destruct (snd a =? 0); cbn; exact IH.
+  unfold act_out at 1. destruct (snd a =? 0); [|destruct (snd a =? 6); [|destruct (snd a =? 7)]]; cbn; exact IH.
 Qed.
 
 Lemma free_steps_none k r : r_timer r = None -> free_steps k r = [].
@@ -486,10 +486,17 @@ Proof.
 Qed.
 
 (* ------------------------------------------------------------------------------------------ *)
-(* light stacks: ownership                                                                     *)
-Definition proj (sid : Z) (s : stack) : stack := filter (fun e => fst e =? sid) s.
-Definition others (sid : Z) (ls : lights) : list stack := map (proj sid) ls.
-Definition clean (sid : Z) (ls : lights) : Prop := Forall (fun s => proj sid s = []) ls.
+(* light stacks: ownership and fade-out                                                        *)
+(* what key [sid] has on a light: its stack entries and its pending removal delay *)
+Definition lproj (sid : Z) (L : light) : list (Z * Z) * list (Z * Z) :=
+  (proj sid (l_stack L), proj sid (l_timers L)).
+Definition others (sid : Z) (ls : lights) : list (list (Z * Z) * list (Z * Z)) := map (lproj sid) ls.
+(* nothing at all of the key on any stack *)
+Definition clean (sid : Z) (ls : lights) : Prop := Forall (fun L => proj sid (l_stack L) = []) ls.
+(* no entry of the key that is not a fade-out *)
+Definition no_live (sid : Z) (ls : lights) : Prop := Forall (fun L => owns sid L = false) ls.
+(* a fade-out entry of the key has its removal delay pending *)
+Definition timed (sid : Z) (L : light) : Prop := fading sid L = true -> proj sid (l_timers L) <> [].
 
 Lemma proj_rem_same sid s : proj sid (rem_key sid s) = [].
 Proof.
@@ -517,6 +524,150 @@ Qed.
 Lemma proj_set_other sid sid' c s : sid' <> sid -> proj sid' (set_key sid c s) = proj sid' s.
 Proof. intros Hd. unfold set_key. rewrite proj_ins_other, proj_rem_other; auto. Qed.
 
+Lemma proj_ins_same sid c s : proj sid s = [] -> proj sid (ins_key sid c s) = [(sid, c)].
+Proof.
+  unfold proj. induction s as [|e s IH]; cbn; intros H.
+  - rewrite Z.eqb_refl. reflexivity.
+  - destruct (fst e =? sid) eqn:E; [discriminate|].
+    destruct (sid <? fst e); cbn.
+    + rewrite Z.eqb_refl, E, H. reflexivity.
+    + rewrite E. apply IH. exact H.
+Qed.
+
+Lemma proj_set_same sid c s : proj sid (set_key sid c s) = [(sid, c)].
+Proof. unfold set_key. apply proj_ins_same. apply proj_rem_same. Qed.
+
+Lemma proj_fire_same sid s :
+  proj sid (filter (fun e => negb ((fst e =? sid) && is_fading e)) s) =
+  filter (fun e => negb (is_fading e)) (proj sid s).
+Proof.
+  unfold proj. induction s as [|e s IH]; cbn; [reflexivity|].
+  destruct (fst e =? sid) eqn:E; cbn.
+  - destruct (is_fading e); cbn; [exact IH|]. rewrite E. f_equal. exact IH.
+  - rewrite E. exact IH.
+Qed.
+
+Lemma proj_fire_other sid sid' s : sid' <> sid ->
+  proj sid' (filter (fun e => negb ((fst e =? sid) && is_fading e)) s) = proj sid' s.
+Proof.
+  intros Hd. unfold proj. induction s as [|e s IH]; cbn; [reflexivity|].
+  destruct (fst e =? sid) eqn:E; cbn.
+  - apply Z.eqb_eq in E.
+    assert (E' : fst e =? sid' = false) by (apply Z.eqb_neq; congruence).
+    destruct (is_fading e); cbn; rewrite E'; exact IH.
+  - destruct (fst e =? sid'); [f_equal|]; exact IH.
+Qed.
+
+Lemma in_proj sid d (tm : list (Z * Z)) : In (sid, d) tm -> proj sid tm <> [].
+Proof.
+  intros Hin E. assert (H : In (sid, d) (proj sid tm)).
+  { unfold proj. apply filter_In. split; [exact Hin|]. cbn. apply Z.eqb_refl. }
+  rewrite E in H. exact H.
+Qed.
+
+(* ---- the three things that happen to key [sid] on one light ---- *)
+Lemma set_light_same sid c L : 0 < c ->
+  proj sid (l_stack (set_light sid c L)) = [(sid, c)] /\ l_timers (set_light sid c L) = l_timers L.
+Proof. intros _. unfold set_light. cbn [l_stack l_timers l_fade]. split; [apply proj_set_same|reflexivity]. Qed.
+
+Lemma set_light_other sid sid' c L : sid' <> sid -> lproj sid' (set_light sid c L) = lproj sid' L.
+Proof. intros Hd. unfold lproj, set_light. cbn [l_stack l_timers l_fade]. rewrite proj_set_other by exact Hd. reflexivity. Qed.
+
+Lemma rem_fade_same sid now f L :
+  let L' := rem_fade sid now f L in
+  (proj sid (l_stack L') = [] /\ l_timers L' = l_timers L) \/
+  (exists d, proj sid (l_stack L') = [(sid, -1)] /\ proj sid (l_timers L') = [(sid, d)]).
+Proof.
+  cbv zeta. unfold rem_fade.
+  destruct (has_key sid (l_stack L)) eqn:Hk.
+  - destruct (owns sid L && (0 <? (if f <? 0 then l_fade L else f))); cbn [l_stack l_timers l_fade].
+    + right. eexists. split; apply proj_set_same.
+    + left. split; [apply proj_rem_same|reflexivity].
+  - left. split; [|reflexivity]. unfold has_key in Hk. destruct (proj sid (l_stack L)); [reflexivity|discriminate].
+Qed.
+
+Lemma rem_fade_other sid sid' now f L : sid' <> sid -> lproj sid' (rem_fade sid now f L) = lproj sid' L.
+Proof.
+  intros Hd. unfold rem_fade, lproj.
+  destruct (has_key sid (l_stack L)); [|reflexivity].
+  destruct (owns sid L && (0 <? (if f <? 0 then l_fade L else f))); cbn [l_stack l_timers l_fade].
+  - rewrite !proj_set_other by exact Hd. reflexivity.
+  - rewrite proj_rem_other by exact Hd. reflexivity.
+Qed.
+
+Lemma fire_rem_same sid L :
+  proj sid (l_stack (fire_rem sid L)) = filter (fun e => negb (is_fading e)) (proj sid (l_stack L)) /\
+  proj sid (l_timers (fire_rem sid L)) = [].
+Proof. unfold fire_rem. cbn [l_stack l_timers l_fade]. split; [apply proj_fire_same|apply proj_rem_same]. Qed.
+
+Lemma fire_rem_other sid sid' L : sid' <> sid -> lproj sid' (fire_rem sid L) = lproj sid' L.
+Proof.
+  intros Hd. unfold lproj, fire_rem. cbn [l_stack l_timers l_fade]. rewrite proj_fire_other, proj_rem_other by exact Hd. reflexivity.
+Qed.
+
+Lemma existsb_filter_same {A} (p : A -> bool) l : existsb p (filter p l) = existsb p l.
+Proof. induction l as [|x l IH]; cbn; [reflexivity|]. destruct (p x) eqn:E; cbn; rewrite ?E; cbn; auto. Qed.
+
+Lemma existsb_filter_neg {A} (p : A -> bool) l : existsb p (filter (fun x => negb (p x)) l) = false.
+Proof. induction l as [|x l IH]; cbn; [reflexivity|]. destruct (p x) eqn:E; cbn; rewrite ?E; cbn; auto. Qed.
+
+(* the removal delay of the key expires: its fade-out entry is gone, the delay is gone, whether the key
+   owns a (new) live entry is unchanged *)
+Lemma fire_rem_spec sid L :
+  fading sid (fire_rem sid L) = false /\ owns sid (fire_rem sid L) = owns sid L /\
+  proj sid (l_timers (fire_rem sid L)) = [].
+Proof.
+  destruct (fire_rem_same sid L) as (E1 & E2). unfold fading, owns. rewrite E1.
+  split; [apply existsb_filter_neg|]. split; [|exact E2].
+  apply (existsb_filter_same (fun e => negb (is_fading e))).
+Qed.
+
+Lemma rem_fade_spec sid now f L :
+  owns sid (rem_fade sid now f L) = false /\ (timed sid L -> timed sid (rem_fade sid now f L)).
+Proof.
+  destruct (rem_fade_same sid now f L) as [(E1 & E2) | (d & E1 & E2)]; unfold owns, timed, fading; rewrite E1.
+  - split; [reflexivity|]. cbn. intros _ H. discriminate.
+  - split; [reflexivity|]. intros _ _. rewrite E2. discriminate.
+Qed.
+
+Lemma set_light_spec sid c L : 0 < c -> timed sid (set_light sid c L).
+Proof.
+  intros Hc. destruct (set_light_same sid c L Hc) as (E1 & _). unfold timed, fading. rewrite E1. cbn.
+  unfold is_fading. cbn. destruct (c =? -1) eqn:E; [apply Z.eqb_eq in E; lia|]. discriminate.
+Qed.
+
+(* whatever depends only on what the key has on the light is preserved by a change that leaves that alone *)
+Lemma owns_lproj sid L L' : lproj sid L' = lproj sid L -> owns sid L' = owns sid L.
+Proof. unfold lproj, owns. intros E. inversion E as [[E1 E2]]. rewrite E1. reflexivity. Qed.
+
+Lemma timed_lproj sid L L' : lproj sid L' = lproj sid L -> timed sid L -> timed sid L'.
+Proof. unfold lproj, timed, fading. intros E. inversion E as [[E1 E2]]. rewrite E1, E2. auto. Qed.
+
+Lemma clean_lproj sid L L' : lproj sid L' = lproj sid L ->
+  proj sid (l_stack L) = [] -> proj sid (l_stack L') = [].
+Proof. unfold lproj. intros E. inversion E as [[E1 E2]]. rewrite E1. auto. Qed.
+
+Lemma Forall_others (P : light -> Prop) sid :
+  (forall L L', lproj sid L' = lproj sid L -> P L -> P L') ->
+  forall ls ls', others sid ls' = others sid ls -> Forall P ls -> Forall P ls'.
+Proof.
+  intros HP. unfold others. induction ls as [|L ls IH]; intros [|L' ls'] E H; cbn in E; try discriminate.
+  - constructor.
+  - pose proof (f_equal (@hd _ (lproj sid L)) E) as E1. pose proof (f_equal (@tl _) E) as E2. cbn in E1, E2.
+    inversion H; subst. constructor; [eapply HP; eauto|]. apply IH; assumption.
+Qed.
+
+Lemma no_live_others sid ls ls' : others sid ls' = others sid ls -> no_live sid ls -> no_live sid ls'.
+Proof.
+  apply Forall_others. intros L L' E H. rewrite (owns_lproj _ _ _ E). exact H.
+Qed.
+
+Lemma timed_others sid ls ls' : others sid ls' = others sid ls -> Forall (timed sid) ls -> Forall (timed sid) ls'.
+Proof. apply Forall_others. intros L L' E H. eapply timed_lproj; eauto. Qed.
+
+Lemma clean_others sid ls ls' : others sid ls' = others sid ls -> clean sid ls -> clean sid ls'.
+Proof. apply (Forall_others (fun L => proj sid (l_stack L) = [])). intros L L' E H. eapply clean_lproj; eauto. Qed.
+
 Lemma map_upd_nth_inv {A B} (g : A -> B) (f : A -> A) : (forall x, g (f x) = g x) ->
   forall n l, map g (upd_nth n f l) = map g l.
 Proof.
@@ -525,14 +676,46 @@ Proof.
   - rewrite IH. reflexivity.
 Qed.
 
+Lemma Forall_upd_nth {A} (P : A -> Prop) (f : A -> A) : (forall x, P x -> P (f x)) ->
+  forall n l, Forall P l -> Forall P (upd_nth n f l).
+Proof.
+  intros H n. induction n as [|n IH]; intros [|x l] HF; cbn; try constructor; inversion HF; subst; auto.
+Qed.
+
+Definition clear_light (sid now : Z) (L : light) : light :=
+  if owns sid L then rem_fade sid now (-1) L else L.
+
+Lemma clear_light_other sid sid' now L : sid' <> sid -> lproj sid' (clear_light sid now L) = lproj sid' L.
+Proof. intros Hd. unfold clear_light. destruct (owns sid L); [apply rem_fade_other; exact Hd|reflexivity]. Qed.
+
+Lemma clear_light_own sid now L :
+  owns sid (clear_light sid now L) = false /\ (timed sid L -> timed sid (clear_light sid now L)).
+Proof.
+  unfold clear_light. destruct (owns sid L) eqn:E; [apply rem_fade_spec|]. split; [exact E|auto].
+Qed.
+
 Lemma apply_out_frame sid sid' now ls o :
   sid' <> sid -> others sid' (fst (apply_out sid now ls o)) = others sid' ls.
 Proof.
-  intros Hd. unfold others. destruct o; cbn [apply_out fst].
+  intros Hd. unfold others. destruct o as [code arg | l color st | l f | ]; cbn [apply_out fst].
   - reflexivity.
-  - apply map_upd_nth_inv. intros s. apply proj_set_other. exact Hd.
-  - apply map_upd_nth_inv. intros s. apply proj_rem_other. exact Hd.
-  - rewrite map_map. apply map_ext. intros s. apply proj_rem_other. exact Hd.
+  - destruct (color <=? 0); cbn [fst]; [reflexivity|].
+    apply map_upd_nth_inv. intros L. apply set_light_other. exact Hd.
+  - apply map_upd_nth_inv. intros L. apply rem_fade_other. exact Hd.
+  - rewrite map_map. apply map_ext. intros L. apply (clear_light_other sid sid' now L Hd).
+Qed.
+
+(* the key's own invariant: a fade-out entry always has its removal delay pending *)
+Lemma apply_out_timed sid now ls o :
+  Forall (timed sid) ls -> Forall (timed sid) (fst (apply_out sid now ls o)).
+Proof.
+  intros H. destruct o as [code arg | l color st | l f | ]; cbn [apply_out fst].
+  - exact H.
+  - destruct (color <=? 0) eqn:E; cbn [fst]; [exact H|]. apply Z.leb_gt in E.
+    apply Forall_upd_nth; [|exact H]. intros L _. apply set_light_spec. exact E.
+  - apply Forall_upd_nth; [|exact H]. intros L HL. apply rem_fade_spec. exact HL.
+  - apply Forall_forall. intros L' Hin. apply in_map_iff in Hin as (L & <- & Hin).
+    apply (clear_light_own sid now L). rewrite Forall_forall in H. apply H. exact Hin.
 Qed.
 
 Lemma apply_outs_fst sid now os : forall ls,
@@ -552,6 +735,14 @@ Proof.
   rewrite IH. apply apply_out_frame. exact Hd.
 Qed.
 
+Lemma apply_outs_timed sid now os : forall ls,
+  Forall (timed sid) ls -> Forall (timed sid) (fst (apply_outs sid now ls os)).
+Proof.
+  intros ls. rewrite apply_outs_fst. revert ls.
+  induction os as [|o os IH]; intros ls H; cbn [fold_left]; [exact H|].
+  apply IH. apply apply_out_timed. exact H.
+Qed.
+
 Lemma apply_outs_evs sid now os : forallb is_ev os = true -> forall ls,
   fst (apply_outs sid now ls os) = ls.
 Proof.
@@ -561,20 +752,16 @@ Proof.
   apply IH. exact H2.
 Qed.
 
+(* clear_context: afterwards the context owns no live entry on any light (what is left is fading out) *)
 Lemma apply_outs_clear sid now evs ls : forallb is_ev evs = true ->
-  clean sid (fst (apply_outs sid now ls (OClear :: evs))).
+  fst (apply_outs sid now ls (OClear :: evs)) = map (clear_light sid now) ls /\
+  no_live sid (fst (apply_outs sid now ls (OClear :: evs))).
 Proof.
   intros H. rewrite apply_outs_fst. cbn [fold_left apply_out fst].
   rewrite <- apply_outs_fst, apply_outs_evs by exact H.
-  unfold clean. apply Forall_forall. intros s Hin. apply in_map_iff in Hin as (s0 & <- & _).
-  apply proj_rem_same.
-Qed.
-
-Lemma clean_others sid ls ls' : others sid ls' = others sid ls -> clean sid ls -> clean sid ls'.
-Proof.
-  unfold others, clean. revert ls'. induction ls as [|s ls IH]; intros [|s' ls'] E H; cbn in E; try discriminate.
-  - constructor.
-  - inversion E. inversion H; subst. constructor; [congruence|]. apply IH; assumption.
+  split; [reflexivity|].
+  unfold no_live. apply Forall_forall. intros L' Hin. apply in_map_iff in Hin as (L & <- & _).
+  apply (clear_light_own sid now L).
 Qed.
 
 (* when a request stops a show, the first thing it does is clear its context; only events follow *)
@@ -629,12 +816,15 @@ Proof.
   apply IH. congruence.
 Qed.
 
+(* a stopped show (and a slot never played) owns no live entry; every fade-out entry of every key has its
+   removal delay pending *)
 Definition show_inv (w : world) (sid : Z) : Prop :=
   match get_show w sid with
-  | Some r => wf r /\ (r_stopped r = true -> clean sid (w_lights w))
-  | None => clean sid (w_lights w)
+  | Some r => wf r /\ (r_stopped r = true -> no_live sid (w_lights w))
+  | None => no_live sid (w_lights w)
   end.
-Definition world_inv (w : world) : Prop := forall sid, 0 <= sid -> show_inv w sid.
+Definition world_inv (w : world) : Prop :=
+  (forall sid, 0 <= sid -> show_inv w sid) /\ (forall key, Forall (timed key) (w_lights w)).
 
 Lemma world_op_eq now sid o w r :
   get_show w sid = Some r ->
@@ -658,7 +848,8 @@ Proof.
   destruct (apply_outs sid now (w_lights w) os) as [ls rows]. reflexivity.
 Qed.
 
-(* frame: a request for one show leaves every other show's entries exactly as they were *)
+(* frame: a request for one show leaves what every other show has on the lights (entries and pending
+   fade-out removals) exactly as it was *)
 Lemma world_op_frame now sid o w sid' :
   sid' <> sid -> others sid' (w_lights (world_op now sid o w)) = others sid' (w_lights w).
 Proof.
@@ -671,6 +862,14 @@ Lemma world_play_frame now sid c w sid' :
   sid' <> sid -> others sid' (w_lights (world_play now sid c w)) = others sid' (w_lights w).
 Proof. intros Hd. rewrite world_play_eq. cbn [w_lights]. apply apply_outs_frame. exact Hd. Qed.
 
+(* ... and so does the end of another key's fade-out *)
+Lemma world_fire_frame d k key w sid' :
+  sid' <> key -> others sid' (w_lights (world_fire d k key w)) = others sid' (w_lights w).
+Proof.
+  intros Hd. unfold world_fire, others. cbn [w_lights].
+  apply map_upd_nth_inv. intros L. apply fire_rem_other. exact Hd.
+Qed.
+
 Lemma get_show_some_lt w sid r : get_show w sid = Some r -> (Z.to_nat sid < length (w_shows w))%nat.
 Proof.
   unfold get_show. intros E. destruct (Nat.lt_ge_cases (Z.to_nat sid) (length (w_shows w))); [assumption|].
@@ -681,32 +880,36 @@ Lemma update_show_inv (w : world) sid (r' : rs) (os : list out) now :
   world_inv w -> 0 <= sid -> (Z.to_nat sid < length (w_shows w))%nat ->
   wf r' ->
   (r_stopped r' = true ->
-     (forallb is_ev os = true /\ clean sid (w_lights w)) \/
+     (forallb is_ev os = true /\ no_live sid (w_lights w)) \/
      (exists evs, os = OClear :: evs /\ forallb is_ev evs = true)) ->
   world_inv (mkW (upd_nth (Z.to_nat sid) (fun _ => Some r') (w_shows w))
                  (fst (apply_outs sid now (w_lights w) os))
                  (w_trace w ++ snd (apply_outs sid now (w_lights w) os))).
 Proof.
-  intros Hinv Hsid Hlt W' Hstop sid' Hsid'. unfold show_inv, get_show. cbn [w_shows w_lights].
-  destruct (Z.eq_dec sid' sid) as [->|Hd].
-  - rewrite nth_upd_same by exact Hlt. split; [exact W'|].
-    intros Hs. destruct (Hstop Hs) as [(Hev & Hc) | (evs & -> & Hev)].
-    + rewrite apply_outs_evs by exact Hev. exact Hc.
-    + apply apply_outs_clear. exact Hev.
-  - rewrite nth_upd_other by (intros E; apply Hd; apply Z2Nat.inj in E; lia).
-    specialize (Hinv sid' Hsid'). unfold show_inv, get_show in Hinv.
-    assert (Hfr : others sid' (fst (apply_outs sid now (w_lights w) os)) = others sid' (w_lights w))
-      by (apply apply_outs_frame; exact Hd).
-    destruct (nth (Z.to_nat sid') (w_shows w) None) as [r0|].
-    + destruct Hinv as (W0 & C0). split; [exact W0|]. intros Hs. eapply clean_others; [exact Hfr|auto].
-    + eapply clean_others; [exact Hfr|exact Hinv].
+  intros (Hinv & Htm) Hsid Hlt W' Hstop. split.
+  - intros sid' Hsid'. unfold show_inv, get_show. cbn [w_shows w_lights].
+    destruct (Z.eq_dec sid' sid) as [->|Hd].
+    + rewrite nth_upd_same by exact Hlt. split; [exact W'|].
+      intros Hs. destruct (Hstop Hs) as [(Hev & Hc) | (evs & -> & Hev)].
+      * rewrite apply_outs_evs by exact Hev. exact Hc.
+      * apply apply_outs_clear. exact Hev.
+    + rewrite nth_upd_other by (intros E; apply Hd; apply Z2Nat.inj in E; lia).
+      specialize (Hinv sid' Hsid'). unfold show_inv, get_show in Hinv.
+      assert (Hfr : others sid' (fst (apply_outs sid now (w_lights w) os)) = others sid' (w_lights w))
+        by (apply apply_outs_frame; exact Hd).
+      destruct (nth (Z.to_nat sid') (w_shows w) None) as [r0|].
+      * destruct Hinv as (W0 & C0). split; [exact W0|]. intros Hs. eapply no_live_others; [exact Hfr|auto].
+      * eapply no_live_others; [exact Hfr|exact Hinv].
+  - intros key. cbn [w_lights]. destruct (Z.eq_dec key sid) as [->|Hd].
+    + apply apply_outs_timed. apply Htm.
+    + eapply timed_others; [apply apply_outs_frame; exact Hd|apply Htm].
 Qed.
 
 Lemma world_op_inv now sid o w : world_inv w -> 0 <= sid -> world_inv (world_op now sid o w).
 Proof.
   intros Hinv Hsid. destruct (get_show w sid) as [r|] eqn:E.
   - rewrite (world_op_eq _ _ _ _ _ E).
-    pose proof (Hinv sid Hsid) as Hs. unfold show_inv in Hs. rewrite E in Hs. destruct Hs as (W & Hc).
+    pose proof (proj1 Hinv sid Hsid) as Hs. unfold show_inv in Hs. rewrite E in Hs. destruct Hs as (W & Hc).
     destruct (apply_op_spec now o r W) as [W' _ _ _ _ D'].
     apply update_show_inv; auto.
     + eapply get_show_some_lt; eassumption.
@@ -726,49 +929,192 @@ Proof.
   intros Hs'. right. apply play_stops; auto.
 Qed.
 
-(* histories of the world: shows are played into free slots, any request (timer expiries included) may follow *)
+Lemma world_fire_inv d k key w : world_inv w -> world_inv (world_fire d k key w).
+Proof.
+  intros (Hinv & Htm). split.
+  - intros sid Hsid. specialize (Hinv sid Hsid). unfold show_inv, get_show in *. cbn [world_fire w_shows w_lights].
+    assert (Hnl : no_live sid (w_lights w) -> no_live sid (upd_nth (Z.to_nat k) (fire_rem key) (w_lights w))).
+    { intros H. apply Forall_upd_nth; [|exact H]. intros L HL.
+      destruct (Z.eq_dec sid key) as [->|Hd].
+      - destruct (fire_rem_spec key L) as (_ & E & _). rewrite E. exact HL.
+      - rewrite (owns_lproj sid L (fire_rem key L)); [exact HL|]. apply fire_rem_other. exact Hd. }
+    destruct (nth (Z.to_nat sid) (w_shows w) None) as [r|].
+    + destruct Hinv as (W & C). split; [exact W|]. intros Hs. apply Hnl. auto.
+    + apply Hnl. exact Hinv.
+  - intros key'. cbn [world_fire w_lights]. apply Forall_upd_nth; [|apply Htm]. intros L HL.
+    destruct (Z.eq_dec key' key) as [->|Hd].
+    + destruct (fire_rem_spec key L) as (E & _). unfold timed. rewrite E. discriminate.
+    + eapply timed_lproj; [apply fire_rem_other; exact Hd|exact HL].
+Qed.
+
+(* histories of the world: lights with any default fades, shows are played into free slots, any request
+   (timer expiries included) for any show and the expiry of any light's removal delay may follow, at any
+   instants *)
 Inductive reach : world -> Prop :=
-| R0 (n m : nat) : reach (mkW (repeat None n) (repeat [] m) [])
+| R0 (n : nat) (fades : list Z) : reach (mkW (repeat None n) (map (fun f => mkLight f [] []) fades) [])
 | RPlay w now sid c : reach w -> 0 <= sid -> (Z.to_nat sid < length (w_shows w))%nat ->
                       get_show w sid = None -> c_steps c <> [] -> reach (world_play now sid c w)
-| ROp w now sid o : reach w -> 0 <= sid -> reach (world_op now sid o w).
+| ROp w now sid o : reach w -> 0 <= sid -> reach (world_op now sid o w)
+| RFire w d k key : reach w -> reach (world_fire d k key w).
 
 Lemma reach_inv w : reach w -> world_inv w.
 Proof.
-  induction 1 as [n m | w now sid c _ IH Hsid Hlt E Hne | w now sid o _ IH Hsid].
-  - intros sid Hsid. unfold show_inv, get_show. cbn [w_shows w_lights].
-    assert (Hn : nth (Z.to_nat sid) (repeat (@None rs) n) None = None).
-    { generalize (Z.to_nat sid). induction n as [|n IHn]; intros [|k]; cbn; auto. }
-    rewrite Hn. unfold clean. apply Forall_forall. intros s Hin. apply repeat_spec in Hin. subst s. reflexivity.
+  induction 1 as [n fades | w now sid c _ IH Hsid Hlt E Hne | w now sid o _ IH Hsid | w d k key _ IH].
+  - split.
+    + intros sid Hsid. unfold show_inv, get_show. cbn [w_shows w_lights].
+      assert (Hn : nth (Z.to_nat sid) (repeat (@None rs) n) None = None).
+      { generalize (Z.to_nat sid). induction n as [|n IHn]; intros [|k]; cbn; auto. }
+      rewrite Hn. unfold no_live. apply Forall_forall. intros L Hin. apply in_map_iff in Hin as (f & <- & _).
+      reflexivity.
+    + intros key. cbn [w_lights]. apply Forall_forall. intros L Hin. apply in_map_iff in Hin as (f & <- & _).
+      unfold timed, fading. cbn. discriminate.
   - apply world_play_inv; assumption.
   - apply world_op_inv; assumption.
+  - apply world_fire_inv; assumption.
 Qed.
 
+(* a stopped show owns no live entry on any light: all that can be left of it is the fade-out of an entry,
+   and every fade-out has its removal pending *)
 Lemma stop_clears_context_l w sid r :
-  reach w -> 0 <= sid -> get_show w sid = Some r -> r_stopped r = true -> clean sid (w_lights w).
+  reach w -> 0 <= sid -> get_show w sid = Some r -> r_stopped r = true ->
+  no_live sid (w_lights w) /\ Forall (timed sid) (w_lights w).
 Proof.
-  intros Hr Hsid E Hs. pose proof (reach_inv w Hr sid Hsid) as H. unfold show_inv in H. rewrite E in H.
-  apply H. exact Hs.
+  intros Hr Hsid E Hs. destruct (reach_inv w Hr) as (H & Ht). specialize (H sid Hsid).
+  unfold show_inv in H. rewrite E in H. split; [apply H; exact Hs|apply Ht].
+Qed.
+
+Lemma no_live_timed_clean sid ls :
+  no_live sid ls -> Forall (timed sid) ls -> Forall (fun L => proj sid (l_timers L) = []) ls -> clean sid ls.
+Proof.
+  unfold no_live, clean. rewrite !Forall_forall. intros H1 H2 H3 L Hin.
+  specialize (H1 L Hin). specialize (H2 L Hin). specialize (H3 L Hin).
+  unfold owns in H1. unfold timed, fading in H2.
+  destruct (proj sid (l_stack L)) as [|e s] eqn:E; [reflexivity|]. exfalso.
+  destruct (existsb is_fading (e :: s)) eqn:Ef; [apply H2; auto|].
+  cbn in H1, Ef. apply orb_false_iff in H1 as [H1 _]. apply orb_false_iff in Ef as [Ef _].
+  rewrite Ef in H1. discriminate.
+Qed.
+
+(* ... so once the removal delays of the stopped show have expired nothing of it is left on any stack *)
+Lemma stopped_and_faded_clean_l w sid r :
+  reach w -> 0 <= sid -> get_show w sid = Some r -> r_stopped r = true ->
+  Forall (fun L => proj sid (l_timers L) = []) (w_lights w) -> clean sid (w_lights w).
+Proof.
+  intros Hr Hsid E Hs Hno. destruct (stop_clears_context_l w sid r Hr Hsid E Hs) as (H1 & H2).
+  apply no_live_timed_clean; assumption.
+Qed.
+
+Lemma get_show_after_op w now sid o r :
+  get_show w sid = Some r -> get_show (world_op now sid o w) sid = Some (fst (apply_op now o r)).
+Proof.
+  intros E. pose proof (get_show_some_lt _ _ _ E) as Hlt.
+  rewrite (world_op_eq _ _ _ _ _ E). unfold get_show. cbn [w_shows]. rewrite nth_upd_same by exact Hlt. reflexivity.
 Qed.
 
 Lemma stop_request_clears_l w now sid r :
-  reach w -> 0 <= sid -> get_show w sid = Some r -> clean sid (w_lights (world_op now sid Stop w)).
+  reach w -> 0 <= sid -> get_show w sid = Some r -> no_live sid (w_lights (world_op now sid Stop w)).
 Proof.
   intros Hr Hsid E.
   assert (Hr' : reach (world_op now sid Stop w)) by (constructor; assumption).
-  pose proof (get_show_some_lt _ _ _ E) as Hlt.
   eapply stop_clears_context_l with (r := fst (apply_op now Stop r)); [exact Hr'|exact Hsid| |].
-  - rewrite (world_op_eq _ _ _ _ _ E). unfold get_show. cbn [w_shows]. rewrite nth_upd_same by exact Hlt. reflexivity.
+  - apply get_show_after_op. exact E.
   - cbn. unfold do_stop. destruct (r_stopped r) eqn:Es; cbn; auto.
+Qed.
+
+(* what stop() of a live show does to the lights: clear_context on every light *)
+Lemma stop_fades_out_l w now sid r :
+  get_show w sid = Some r -> r_stopped r = false ->
+  w_lights (world_op now sid Stop w) = map (clear_light sid now) (w_lights w).
+Proof.
+  intros E Hs. rewrite (world_op_eq _ _ _ _ _ E). cbn [w_lights apply_op]. unfold do_stop. rewrite Hs. cbn [snd].
+  apply (apply_outs_clear sid now [OEv 4 0] (w_lights w)). reflexivity.
+Qed.
+
+(* ... on one light: a live entry of the show becomes a fade-out whose removal is due exactly
+   default-fade later (or is removed at once when the light has no default fade); a light on which the show
+   owns nothing live is not touched *)
+Lemma clear_light_spec_l sid now L :
+  (owns sid L = true -> 0 < l_fade L ->
+     proj sid (l_stack (clear_light sid now L)) = [(sid, -1)] /\
+     proj sid (l_timers (clear_light sid now L)) = [(sid, now + l_fade L)]) /\
+  (owns sid L = true -> l_fade L <= 0 ->
+     proj sid (l_stack (clear_light sid now L)) = [] /\ l_timers (clear_light sid now L) = l_timers L) /\
+  (owns sid L = false -> clear_light sid now L = L).
+Proof.
+  unfold clear_light.
+  assert (Hk : owns sid L = true -> has_key sid (l_stack L) = true).
+  { unfold owns, has_key. destruct (proj sid (l_stack L)); [discriminate|reflexivity]. }
+  split; [|split].
+  - intros Ho Hf. rewrite Ho. unfold rem_fade. rewrite (Hk Ho), Ho. cbn [Z.ltb Z.compare].
+    change (-1 <? 0) with true. cbv iota.
+    destruct (0 <? l_fade L) eqn:E; [|apply Z.ltb_ge in E; lia]. cbn.
+    split; apply proj_set_same.
+  - intros Ho Hf. rewrite Ho. unfold rem_fade. rewrite (Hk Ho), Ho.
+    change (-1 <? 0) with true. cbv iota.
+    destruct (0 <? l_fade L) eqn:E; [apply Z.ltb_lt in E; lia|]. cbn.
+    split; [apply proj_rem_same|reflexivity].
+  - intros Ho. rewrite Ho. reflexivity.
 Qed.
 
 Lemma all_stopped_all_dark_l w :
   reach w ->
   (forall sid r, 0 <= sid -> get_show w sid = Some r -> r_stopped r = true) ->
-  forall sid, 0 <= sid -> clean sid (w_lights w).
+  forall sid, 0 <= sid ->
+    no_live sid (w_lights w) /\
+    (Forall (fun L => proj sid (l_timers L) = []) (w_lights w) -> clean sid (w_lights w)).
 Proof.
-  intros Hr Hall sid Hsid. pose proof (reach_inv w Hr sid Hsid) as H. unfold show_inv in H.
-  destruct (get_show w sid) as [r|] eqn:E; [|exact H]. apply H. eapply Hall; eauto.
+  intros Hr Hall sid Hsid. destruct (reach_inv w Hr) as (H & Ht). specialize (H sid Hsid). unfold show_inv in H.
+  assert (Hnl : no_live sid (w_lights w)).
+  { destruct (get_show w sid) as [r|] eqn:E; [|exact H]. apply H. eapply Hall; eauto. }
+  split; [exact Hnl|]. intros Hno. apply no_live_timed_clean; auto.
+Qed.
+
+(* the clock: when nothing is due at or before t, every pending removal delay lies after t *)
+Lemma min_timer_some t tm b : min_timer t tm (Some b) <> None.
+Proof.
+  revert b. induction tm as [|[s d] tm IH]; intros b; cbn; [discriminate|].
+  destruct (d <=? t); [|apply IH]. destruct b as [bs bd]. destruct (d <? bd); apply IH.
+Qed.
+
+Lemma min_timer_none t tm : min_timer t tm None = None -> forall s d, In (s, d) tm -> t < d.
+Proof.
+  induction tm as [|[s0 d0] tm IH]; cbn; intros H s d Hin; [contradiction|].
+  destruct (d0 <=? t) eqn:E.
+  - exfalso. exact (min_timer_some _ _ _ H).
+  - destruct Hin as [Hin|Hin]; [inversion Hin; subst; apply Z.leb_gt in E; exact E|]. eapply IH; eauto.
+Qed.
+
+Lemma next_due_light_some t ls : forall k b, next_due_light t k ls (Some b) <> None.
+Proof.
+  induction ls as [|L ls IH]; intros k b; cbn; [discriminate|].
+  destruct (min_timer t (l_timers L) None) as [[s d]|]; [|apply IH].
+  destruct b as [[bk bs] bd]. destruct (d <? bd); apply IH.
+Qed.
+
+Lemma next_due_light_none t ls : forall k,
+  next_due_light t k ls None = None ->
+  forall L s d, In L ls -> In (s, d) (l_timers L) -> t < d.
+Proof.
+  induction ls as [|L0 ls IH]; intros k H L s d HL Hin; cbn in *; [contradiction|].
+  destruct (min_timer t (l_timers L0) None) as [[s0 d0]|] eqn:E.
+  - exfalso. exact (next_due_light_some _ _ _ _ H).
+  - destruct HL as [<-|HL]; [eapply min_timer_none; eauto|]. eapply IH; eauto.
+Qed.
+
+(* after stop plus the fade-out time: when every removal delay of the stopped show was due by t and the
+   clock has nothing left that is due by t, nothing of the show is left on any stack *)
+Lemma stop_then_fade_clean_l w sid r t :
+  reach w -> 0 <= sid -> get_show w sid = Some r -> r_stopped r = true ->
+  (forall L d, In L (w_lights w) -> In (sid, d) (l_timers L) -> d <= t) ->
+  next_due_light t 0 (w_lights w) None = None ->
+  clean sid (w_lights w).
+Proof.
+  intros Hr Hsid E Hs Hdue Hnone. eapply stopped_and_faded_clean_l; eauto.
+  apply Forall_forall. intros L HL.
+  destruct (proj sid (l_timers L)) as [|[s d] tm] eqn:Ep; [reflexivity|]. exfalso.
+  assert (Hin : In (s, d) (proj sid (l_timers L))) by (rewrite Ep; left; reflexivity).
+  unfold proj in Hin. apply filter_In in Hin as (Hin & Es). cbn in Es. apply Z.eqb_eq in Es. subst s.
+  pose proof (Hdue L d HL Hin). pose proof (next_due_light_none t _ 0 Hnone L sid d HL Hin). lia.
 Qed.
 
 (* ------------------------------------------------------------------------------------------ *)
@@ -792,7 +1138,7 @@ Definition set_starts_at (now : Z) (o : out) : Prop :=
 Lemma step_outs_start st now : Forall (set_starts_at now) (step_outs st now).
 Proof.
   unfold step_outs. apply Forall_forall. intros o Hin. apply in_map_iff in Hin as (a & <- & _).
-  destruct (snd a =? 0); cbn; auto.
+  unfold act_out. destruct (snd a =? 0); [|destruct (snd a =? 6); [|destruct (snd a =? 7)]]; cbn; auto.
 Qed.
 
 (* resume / advance / step_back on a live show: the pending timer is dropped, the step
@@ -983,3 +1329,542 @@ Proof.
     apply free_consec. unfold wf. cbn. repeat split; auto; try discriminate.
     intros d b E. inversion E. reflexivity.
 Qed.
+
+(* ------------------------------------------------------------------------------------------ *)
+(* loop count: a free-running show with loops = L >= 0 executes exactly (L+1)*n - i0 steps (i0 = index of its
+   first step), posts looped exactly L times, then stops and completes                          *)
+Fixpoint free_run (k : nat) (r : rs) : rs * list out :=
+  match k with
+  | O => (r, [])
+  | S k' =>
+      match r_timer r with
+      | Some (d, _) =>
+          let r1 := fst (apply_op d Fire r) in
+          (fst (free_run k' r1), snd (apply_op d Fire r) ++ snd (free_run k' r1))
+      | None => (r, [])
+      end
+  end.
+
+Lemma free_run_none k r : r_timer r = None -> free_run k r = (r, []).
+Proof. destruct k; cbn; [reflexivity|]. intros ->. reflexivity. Qed.
+
+Definition pos_steps (r : rs) : Prop := forall i, 0 <= i < total r -> 0 < step_time r i.
+
+Lemma run_next_plain post r :
+  r_stopped r = false -> r_manual r = false -> 0 <= r_idx r < total r -> 0 < step_time r (r_idx r) ->
+  run_next post false r =
+  (mkRs (r_steps r) (r_speed4 r) false (r_running r) (r_idx r + 1) (r_nst r + step_time r (r_idx r))
+        (r_loops r) false (Some (r_nst r + step_time r (r_idx r), false)),
+   step_outs (nth_step r (r_idx r)) (r_nst r) ++ [OEv 0 (r_idx r)] ++ post).
+Proof.
+  intros Hs Hm Hi Hp.
+  assert (E1 : (r_idx r <? 0) = false) by (apply Z.ltb_ge; lia).
+  assert (E2 : (r_idx r >=? total r) = false) by (rewrite Z.geb_leb; apply Z.leb_gt; lia).
+  assert (E3 : (0 <? step_time r (r_idx r)) = true) by (apply Z.ltb_lt; exact Hp).
+  unfold run_next. cbv zeta. rewrite E1, E2. cbn [andb]. unfold step_time in E3 |- *.
+  rewrite Hm, E3, Hs. cbn [negb andb]. reflexivity.
+Qed.
+
+Lemma run_next_wrap post r :
+  r_stopped r = false -> r_manual r = false -> r_idx r = total r -> 0 < total r -> 0 < r_loops r ->
+  0 < step_time r 0 ->
+  run_next post false r =
+  (mkRs (r_steps r) (r_speed4 r) false (r_running r) 1 (r_nst r + step_time r 0)
+        (r_loops r - 1) false (Some (r_nst r + step_time r 0, false)),
+   step_outs (nth_step r 0) (r_nst r) ++ [OEv 0 0] ++ post ++ [OEv 2 0]).
+Proof.
+  intros Hs Hm Hi Hn Hl Hp.
+  assert (E1 : (r_idx r <? 0) = false) by (apply Z.ltb_ge; lia).
+  assert (E2 : (r_idx r >=? total r) = true) by (rewrite Z.geb_leb; apply Z.leb_le; lia).
+  assert (E3 : (0 <? step_time r 0) = true) by (apply Z.ltb_lt; exact Hp).
+  assert (E4 : (r_loops r =? 0) = false) by (apply Z.eqb_neq; lia).
+  assert (E5 : (r_loops r >? 0) = true) by (rewrite Z.gtb_ltb; apply Z.ltb_lt; lia).
+  unfold run_next. cbv zeta. rewrite E1, E2, E4, E5. cbn [andb]. unfold step_time in E3 |- *.
+  rewrite Hm, E3, Hs. cbn [negb andb]. reflexivity.
+Qed.
+
+Lemma run_next_end post r :
+  r_stopped r = false -> r_idx r = total r -> 0 < total r -> r_loops r = 0 ->
+  run_next post false r =
+  (mkRs (r_steps r) (r_speed4 r) (r_manual r) (r_running r) (r_idx r) (r_nst r) 0 true None,
+   [OClear; OEv 4 0] ++ post ++ [OEv 3 0]).
+Proof.
+  intros Hs Hi Hn Hl.
+  assert (E1 : (r_idx r <? 0) = false) by (apply Z.ltb_ge; lia).
+  assert (E2 : (r_idx r >=? total r) = true) by (rewrite Z.geb_leb; apply Z.leb_le; lia).
+  unfold run_next. cbv zeta. rewrite E1, E2, Hl. cbn [andb Z.eqb]. unfold do_stop, set_idx. cbn [r_stopped].
+  rewrite Hs. cbn. rewrite Hl. reflexivity.
+Qed.
+
+Record live (steps : list step) (sp : Z) (r : rs) : Prop := mkLive {
+  lv_steps : r_steps r = steps;
+  lv_speed : r_speed4 r = sp;
+  lv_stopped : r_stopped r = false;
+  lv_manual : r_manual r = false;
+  lv_timer : exists d, r_timer r = Some (d, false);
+  lv_idx : 1 <= r_idx r <= total r;
+  lv_loops : 0 <= r_loops r
+}.
+
+Lemma pos_steps_eq r r' : r_steps r' = r_steps r -> r_speed4 r' = r_speed4 r -> pos_steps r -> pos_steps r'.
+Proof.
+  intros E1 E2 H i Hi. unfold step_time, nth_step, total in *. rewrite E1, E2 in *. apply H. exact Hi.
+Qed.
+
+Ltac eval_cnt :=
+  repeat match goal with
+  | |- context [cnt ?c (?x :: ?l)] =>
+      let v := eval vm_compute in (cnt c (x :: l)) in change (cnt c (x :: l)) with v
+  | |- context [cnt ?c []] => change (cnt c []) with 0%nat
+  end.
+
+Lemma free_run_counts : forall k r,
+  live (r_steps r) (r_speed4 r) r -> pos_steps r ->
+  r_loops r * total r + (total r - r_idx r) < Z.of_nat k ->
+  r_stopped (fst (free_run k r)) = true /\
+  Z.of_nat (cnt 0 (snd (free_run k r))) = r_loops r * total r + (total r - r_idx r) /\
+  Z.of_nat (cnt 2 (snd (free_run k r))) = r_loops r /\
+  cnt 3 (snd (free_run k r)) = 1%nat /\ cnt 4 (snd (free_run k r)) = 1%nat /\ cnt 1 (snd (free_run k r)) = 0%nat.
+Proof.
+  induction k as [|k IH]; intros r L P Hk.
+  - destruct L as [_ _ _ _ _ Hi Hl]. cbn in Hk. nia.
+  - pose proof L as [_ _ Hs Hm (d & Ht) Hi Hl].
+    assert (Hn : 0 < total r) by lia.
+    rewrite Nat2Z.inj_succ in Hk.
+    cbn [free_run]. rewrite Ht. unfold apply_op. rewrite Ht.
+    set (r1 := set_timer r None).
+    assert (Hs1 : r_stopped r1 = false) by exact Hs.
+    assert (Hm1 : r_manual r1 = false) by exact Hm.
+    destruct (Z.eq_dec (r_idx r) (total r)) as [Ee|Ene].
+    + destruct (Z.eq_dec (r_loops r) 0) as [El|Enl].
+      * (* the end *)
+        rewrite (run_next_end [] r1 Hs1 Ee Hn El). cbn [fst snd].
+        rewrite free_run_none by reflexivity. cbn [fst snd]. rewrite app_nil_r, El, Ee.
+        cbn. repeat split; lia.
+      * (* wrap: a loop *)
+        assert (Hp0 : 0 < step_time r1 0) by (apply (P 0); lia).
+        assert (Hl1 : 0 < r_loops r1) by (cbn; lia).
+        rewrite (run_next_wrap [] r1 Hs1 Hm1 Ee Hn Hl1 Hp0). cbn [fst snd].
+        match goal with |- context [free_run k ?x] => set (r2 := x) end.
+        assert (L2 : live (r_steps r2) (r_speed4 r2) r2).
+        { constructor; cbn; auto; try lia. eexists; reflexivity. unfold total. cbn. fold (total r). lia. }
+        assert (P2 : pos_steps r2) by (apply (pos_steps_eq r r2); auto).
+        assert (T2 : total r2 = total r) by reflexivity.
+        destruct (IH r2 L2 P2) as (A & B & C & D & E & F).
+        { rewrite T2. cbn [r2 r_loops r_idx]. change (r_loops r1) with (r_loops r). nia. }
+        rewrite !cnt_app, !step_outs_no_ev. rewrite T2 in B. cbn [r2 r_loops r_idx] in B, C.
+        change (r_loops r1) with (r_loops r) in B, C.
+        eval_cnt.
+        repeat split; auto; try lia; nia.
+    + (* the next step *)
+      assert (Hi1 : 0 <= r_idx r1 < total r1) by (cbn; fold (total r); unfold total in *; cbn; lia).
+      assert (Hp1 : 0 < step_time r1 (r_idx r1)) by (apply (P (r_idx r)); lia).
+      rewrite (run_next_plain [] r1 Hs1 Hm1 Hi1 Hp1). cbn [fst snd].
+      match goal with |- context [free_run k ?x] => set (r2 := x) end.
+      assert (L2 : live (r_steps r2) (r_speed4 r2) r2).
+      { constructor; cbn; auto; try lia. eexists; reflexivity. unfold total. cbn. fold (total r). lia. }
+      assert (P2 : pos_steps r2) by (apply (pos_steps_eq r r2); auto).
+      assert (T2 : total r2 = total r) by reflexivity.
+      destruct (IH r2 L2 P2) as (A & B & C & D & E & F).
+      { rewrite T2. cbn [r2 r_loops r_idx r1 set_timer]. nia. }
+      rewrite !cnt_app, !step_outs_no_ev. rewrite T2 in B. cbn [r2 r_loops r_idx r1 set_timer] in B, C.
+      eval_cnt.
+      repeat split; auto; try lia.
+Qed.
+
+Definition start_idx (c : cfg) : Z :=
+  if c_start c >? 0 then c_start c - 1
+  else if c_start c <? 0 then c_start c mod Z.of_nat (length (c_steps c)) else 0.
+
+Lemma loops_exact_l c t0 k :
+  let n := Z.of_nat (length (c_steps c)) in
+  c_steps c <> [] -> c_manual c = false -> c_running c = true -> 0 <= c_loops c ->
+  (forall i, 0 <= i < n -> 0 < ttn (dur_of (c_steps c) i) (c_speed4 c)) ->
+  start_idx c < n ->
+  let T := (c_loops c + 1) * n - start_idx c in
+  T < Z.of_nat k ->
+  let r0 := fst (play_rs c t0) in
+  let all := snd (play_rs c t0) ++ snd (free_run k r0) in
+  r_stopped (fst (free_run k r0)) = true /\ Z.of_nat (cnt 0 all) = T /\ Z.of_nat (cnt 2 all) = c_loops c /\
+  cnt 3 all = 1%nat /\ cnt 4 all = 1%nat /\ cnt 1 all = 1%nat.
+Proof.
+  intros n Hne Hman Hrun Hl Hpos Hstart T Hk.
+  assert (Hn : 0 < n).
+  { unfold n. destruct (c_steps c); [congruence|]. cbn [length]. lia. }
+  assert (Hi0 : 0 <= start_idx c).
+  { unfold start_idx. destruct (c_start c >? 0) eqn:E1.
+    - rewrite Z.gtb_ltb in E1. apply Z.ltb_lt in E1. lia.
+    - destruct (c_start c <? 0); [|lia]. apply Z.mod_pos_bound. exact Hn. }
+  (* the first step, run by _start_now *)
+  assert (First : forall r1, r_steps r1 = c_steps c -> r_speed4 r1 = c_speed4 c -> r_manual r1 = false ->
+            r_running r1 = true -> r_stopped r1 = false -> r_idx r1 = start_idx c -> r_loops r1 = c_loops c ->
+            forall k', T - 1 < Z.of_nat k' ->
+            let r2 := fst (start_now r1) in
+            let os := snd (start_now r1) ++ snd (free_run k' r2) in
+            r_stopped (fst (free_run k' r2)) = true /\ Z.of_nat (cnt 0 os) = T /\ Z.of_nat (cnt 2 os) = c_loops c /\
+            cnt 3 os = 1%nat /\ cnt 4 os = 1%nat /\ cnt 1 os = 1%nat).
+  { intros r1 E1 E2 E3 E4 E5 E6 E7 k' Hk'.
+    assert (Tot : total r1 = n) by (unfold total; rewrite E1; reflexivity).
+    assert (P1 : pos_steps r1).
+    { intros i Hi. unfold step_time, nth_step. rewrite E1, E2. apply Hpos. rewrite <- Tot. exact Hi. }
+    unfold start_now. rewrite E4. cbn [negb].
+    rewrite (run_next_plain [OEv 1 0] r1 E5 E3); [|rewrite Tot, E6; lia|apply P1; rewrite Tot, E6; lia].
+    cbn [fst snd].
+    match goal with |- context [free_run k' ?x] => set (r2 := x) end.
+    assert (L2 : live (r_steps r2) (r_speed4 r2) r2).
+    { constructor; cbn; auto; try lia. eexists; reflexivity. unfold total. cbn. fold (total r1). lia. }
+    assert (P2 : pos_steps r2) by (apply (pos_steps_eq r1 r2); auto).
+    assert (T2 : total r2 = n) by exact Tot.
+    destruct (free_run_counts k' r2 L2 P2) as (A & B & C & D & E & F).
+    { rewrite T2. cbn [r2 r_loops r_idx]. rewrite E6, E7. unfold T in Hk'. nia. }
+    rewrite T2 in B. cbn [r2 r_loops r_idx] in B, C. rewrite E6, E7 in B. rewrite E7 in C.
+    rewrite !cnt_app, !step_outs_no_ev. eval_cnt. unfold T.
+    repeat split; auto; try lia; nia. }
+  cbv zeta. unfold play_rs. fold n. fold (start_idx c).
+  destruct (c_sync c =? 0).
+  - apply First; auto. lia.
+  - cbn [fst snd app]. destruct k as [|k]; [cbn in Hk; lia|].
+    rewrite Nat2Z.inj_succ in Hk.
+    cbn [free_run set_timer set_nst r_timer]. unfold apply_op. cbn [set_timer set_nst r_timer].
+    apply First; auto. lia.
+Qed.
+
+(* ------------------------------------------------------------------------------------------ *)
+(* show_player: the instance dictionary                                                        *)
+Lemma ckey_eqb_eq a b : ckey_eqb a b = true <-> a = b.
+Proof.
+  unfold ckey_eqb. destruct a as [a1 a2], b as [b1 b2]. cbn. rewrite andb_true_iff, !Z.eqb_eq.
+  split; [intros [-> ->]; reflexivity|intros E; inversion E; auto].
+Qed.
+
+Lemma ckey_eqb_refl a : ckey_eqb a a = true.
+Proof. apply ckey_eqb_eq. reflexivity. Qed.
+
+Lemma lookup_unbind_same k inst : lookup k (unbind k inst) = None.
+Proof.
+  induction inst as [|[k' v] inst IH]; cbn; [reflexivity|].
+  destruct (ckey_eqb k k') eqn:E; cbn; [exact IH|]. rewrite E. exact IH.
+Qed.
+
+Lemma lookup_unbind_other k k' inst : k' <> k -> lookup k' (unbind k inst) = lookup k' inst.
+Proof.
+  intros Hd. induction inst as [|[k0 v] inst IH]; cbn; [reflexivity|].
+  destruct (ckey_eqb k k0) eqn:E; cbn.
+  - apply ckey_eqb_eq in E. subst k0.
+    destruct (ckey_eqb k' k) eqn:E'; [apply ckey_eqb_eq in E'; congruence|exact IH].
+  - destruct (ckey_eqb k' k0); [reflexivity|exact IH].
+Qed.
+
+Lemma get_show_op_other now sid o w sid' :
+  0 <= sid -> 0 <= sid' -> sid' <> sid -> get_show (world_op now sid o w) sid' = get_show w sid'.
+Proof.
+  intros H1 H2 Hd. destruct (get_show w sid) as [r|] eqn:E.
+  - rewrite (world_op_eq _ _ _ _ _ E). unfold get_show. cbn [w_shows].
+    apply nth_upd_other. intros Eq. apply Hd. apply Z2Nat.inj in Eq; lia.
+  - unfold world_op. rewrite E. reflexivity.
+Qed.
+
+Lemma get_show_play_other now slot c w sid' :
+  0 <= slot -> 0 <= sid' -> sid' <> slot -> get_show (world_play now slot c w) sid' = get_show w sid'.
+Proof.
+  intros H1 H2 Hd. rewrite world_play_eq. unfold get_show. cbn [w_shows].
+  apply nth_upd_other. intros Eq. apply Hd. apply Z2Nat.inj in Eq; lia.
+Qed.
+
+Lemma get_show_play_same now slot c w :
+  (Z.to_nat slot < length (w_shows w))%nat ->
+  get_show (world_play now slot c w) slot = Some (fst (play_rs c now)).
+Proof. intros Hlt. rewrite world_play_eq. unfold get_show. cbn [w_shows]. apply nth_upd_same. exact Hlt. Qed.
+
+Lemma world_op_length now sid o w : length (w_shows (world_op now sid o w)) = length (w_shows w).
+Proof.
+  assert (L : forall A (f : A -> A) n l, length (upd_nth n f l) = length l).
+  { intros A f n. induction n as [|n IH]; intros [|x l]; cbn; auto. }
+  destruct (get_show w sid) as [r|] eqn:E.
+  - rewrite (world_op_eq _ _ _ _ _ E). cbn [w_shows]. apply L.
+  - unfold world_op. rewrite E. reflexivity.
+Qed.
+
+(* a stopped show stays a stopped show of the world, whatever is requested of any show *)
+Lemma stopped_stays now sid o w s r :
+  reach w -> 0 <= sid -> 0 <= s -> get_show w s = Some r -> r_stopped r = true ->
+  exists r', get_show (world_op now sid o w) s = Some r' /\ r_stopped r' = true.
+Proof.
+  intros Hr Hsid Hs E St. destruct (Z.eq_dec s sid) as [->|Hd].
+  - rewrite (get_show_after_op _ _ _ _ _ E). eexists. split; [reflexivity|].
+    destruct (reach_inv w Hr) as (Hinv & _). specialize (Hinv sid Hsid). unfold show_inv in Hinv. rewrite E in Hinv.
+    destruct (apply_op_spec now o r (proj1 Hinv)) as [_ _ _ _ _ D]. apply D. exact St.
+  - rewrite get_show_op_other by auto. eauto.
+Qed.
+
+Lemma some_stays now sid o w s :
+  0 <= sid -> 0 <= s -> get_show w s <> None -> get_show (world_op now sid o w) s <> None.
+Proof.
+  intros Hsid Hs H. destruct (Z.eq_dec s sid) as [->|Hd].
+  - destruct (get_show w sid) as [r|] eqn:E; [|congruence]. rewrite (get_show_after_op _ _ _ _ _ E). discriminate.
+  - rewrite get_show_op_other by auto. exact H.
+Qed.
+
+Lemma stop_stops now sid w r :
+  get_show w sid = Some r ->
+  exists r', get_show (world_op now sid Stop w) sid = Some r' /\ r_stopped r' = true.
+Proof.
+  intros E. rewrite (get_show_after_op _ _ _ _ _ E). eexists. split; [reflexivity|].
+  cbn. unfold do_stop. destruct (r_stopped r) eqn:Es; cbn; auto.
+Qed.
+
+Lemma lookup_in k v inst : lookup k inst = Some v -> In (k, v) inst.
+Proof.
+  induction inst as [|[k' v'] inst IH]; cbn; [discriminate|].
+  destruct (ckey_eqb k k') eqn:E; [|auto]. apply ckey_eqb_eq in E. subst k'. intros Es. inversion Es. auto.
+Qed.
+
+Lemma in_unbind k e inst : In e (unbind k inst) -> In e inst.
+Proof. unfold unbind. intros H. apply filter_In in H. apply H. Qed.
+
+Record pinv (p : pstate) : Prop := mkPinv {
+  pi_reach : reach (p_w p);
+  pi_some : forall sid k, In (sid, k) (p_hist p) -> 0 <= sid /\ get_show (p_w p) sid <> None;
+  pi_fun : forall sid k1 k2, In (sid, k1) (p_hist p) -> In (sid, k2) (p_hist p) -> k1 = k2;
+  pi_bound : forall k sid, In (k, sid) (p_inst p) -> In (sid, k) (p_hist p);
+  pi_live : forall sid k r, In (sid, k) (p_hist p) -> get_show (p_w p) sid = Some r -> r_stopped r = false ->
+                            lookup k (p_inst p) = Some sid
+}.
+
+(* a request (or a timer expiry) for one show that leaves the dictionary alone *)
+Lemma pinv_world_op now sid o p :
+  pinv p -> 0 <= sid -> pinv (mkP (world_op now sid o (p_w p)) (p_inst p) (p_hist p)).
+Proof.
+  intros [R S F B L] Hsid. constructor; cbn [p_w p_inst p_hist]; auto.
+  - constructor; assumption.
+  - intros s k Hin. destruct (S s k Hin) as (H0 & Hn). split; [exact H0|]. apply some_stays; auto.
+  - intros s k r Hin E Hlive. destruct (S s k Hin) as (H0 & Hn).
+    destruct (get_show (p_w p) s) as [r0|] eqn:E0; [|congruence].
+    destruct (r_stopped r0) eqn:St.
+    + destruct (stopped_stays now sid o (p_w p) s r0 R Hsid H0 E0 St) as (r' & E' & St'). congruence.
+    + eapply L; eauto.
+Qed.
+
+Lemma pinv_fire d k key p : pinv p -> pinv (p_fade d k key p).
+Proof.
+  intros [R S F B L]. unfold p_fade. constructor; cbn [p_w p_inst p_hist]; auto.
+  constructor. exact R.
+Qed.
+
+Definition act_ok (a : pact) (p : pstate) : Prop :=
+  match a with
+  | APlay slot c => 0 <= slot /\ (Z.to_nat slot < length (w_shows (p_w p)))%nat /\
+                    get_show (p_w p) slot = None /\ c_steps c <> []
+  | _ => True
+  end.
+
+Lemma pinv_deliver now k o p : pinv p -> pinv (deliver now k o p).
+Proof.
+  intros H. unfold deliver. destruct (lookup k (p_inst p)) as [sid|] eqn:E; [|exact H].
+  apply pinv_world_op; [exact H|]. destruct H as [R S F B L]. apply (S sid k). apply B. apply lookup_in. exact E.
+Qed.
+
+Lemma pinv_act now k a p : pinv p -> act_ok a p -> pinv (p_act now k a p).
+Proof.
+  intros H Hok. destruct a; cbn [p_act]; try (apply pinv_deliver; exact H).
+  - (* play *)
+    destruct Hok as (Hslot & Hlt & Hfree & Hne).
+    set (w1 := match lookup k (p_inst p) with Some old => world_op now old Stop (p_w p) | None => p_w p end).
+    assert (H1 : pinv (mkP w1 (p_inst p) (p_hist p)) /\ get_show w1 slot = None /\
+                 length (w_shows w1) = length (w_shows (p_w p)) /\
+                 (forall old, lookup k (p_inst p) = Some old ->
+                    exists r', get_show w1 old = Some r' /\ r_stopped r' = true)).
+    { unfold w1. destruct (lookup k (p_inst p)) as [old|] eqn:E.
+      - pose proof H as [R S F B L].
+        destruct (S old k (B _ _ (lookup_in _ _ _ E))) as (H0 & Hn).
+        assert (Hd : slot <> old) by (intros ->; congruence).
+        split; [apply pinv_world_op; auto|]. split; [rewrite get_show_op_other; auto|].
+        split; [apply world_op_length|].
+        intros old' Eo. inversion Eo; subst old'.
+        destruct (get_show (p_w p) old) as [r0|] eqn:E0; [|congruence]. eapply stop_stops; eauto.
+      - split; [destruct p; exact H|]. split; [exact Hfree|]. split; [reflexivity|]. intros old Eo. discriminate. }
+    destruct H1 as ([R S F B L] & Hfree1 & Hlen & Hold). cbn [p_w p_inst p_hist] in *.
+    assert (Hnot : forall k', ~ In (slot, k') (p_hist p)).
+    { intros k' Hin. destruct (S slot k' Hin) as (_ & Hn). congruence. }
+    constructor; cbn [p_w p_inst p_hist].
+    + constructor; auto. rewrite Hlen. exact Hlt.
+    + intros s k' [Hin|Hin].
+      * inversion Hin; subst. split; [exact Hslot|]. rewrite get_show_play_same by (rewrite Hlen; exact Hlt). discriminate.
+      * destruct (S s k' Hin) as (H0 & Hn). split; [exact H0|].
+        rewrite get_show_play_other; auto. intros ->. exact (Hnot _ Hin).
+    + intros s k1 k2 [H1|H1] [H2|H2].
+      * congruence.
+      * inversion H1; subst. exfalso. exact (Hnot _ H2).
+      * inversion H2; subst. exfalso. exact (Hnot _ H1).
+      * eapply F; eauto.
+    + intros k' s. unfold bind. intros [Es|Es].
+      * inversion Es; subst. left. reflexivity.
+      * right. apply B. eapply in_unbind; eauto.
+    + intros s k' r [Hin|Hin] Es Hlive.
+      * inversion Hin; subst. unfold bind. cbn [lookup]. rewrite ckey_eqb_refl. reflexivity.
+      * assert (Hs : s <> slot) by (intros ->; exact (Hnot _ Hin)).
+        destruct (S s k' Hin) as (H0 & _).
+        rewrite get_show_play_other in Es by auto.
+        pose proof (L s k' r Hin Es Hlive) as Hb.
+        unfold bind. cbn [lookup]. destruct (ckey_eqb k' k) eqn:E.
+        -- apply ckey_eqb_eq in E. subst k'. destruct (Hold s Hb) as (r' & E' & St'). congruence.
+        -- rewrite lookup_unbind_other; [exact Hb|]. intros ->. rewrite ckey_eqb_refl in E. discriminate.
+  - (* stop *)
+    destruct (lookup k (p_inst p)) as [sid|] eqn:E; [|exact H].
+    pose proof H as [R S F B L]. destruct (S sid k (B _ _ (lookup_in _ _ _ E))) as (H0 & Hn).
+    destruct (pinv_world_op now sid Stop p H H0) as [R' S' F' B' L']. cbn [p_w p_inst p_hist] in *.
+    constructor; cbn [p_w p_inst p_hist]; auto.
+    + intros k' s Es. apply B'. eapply in_unbind; eauto.
+    + intros s k' r Hin Es Hlive.
+      pose proof (L' s k' r Hin Es Hlive) as Hb.
+      destruct (ckey_eqb k' k) eqn:Ek.
+      * apply ckey_eqb_eq in Ek. subst k'. assert (s = sid) by congruence. subst s.
+        destruct (get_show (p_w p) sid) as [r0|] eqn:E0; [|congruence].
+        destruct (stop_stops now sid (p_w p) r0 E0) as (r' & E' & St'). congruence.
+      * rewrite lookup_unbind_other; [exact Hb|]. intros ->. rewrite ckey_eqb_refl in Ek. discriminate.
+Qed.
+
+(* clear_context of the show player (a mode stops) *)
+Lemma stop_all_spec now ctx : forall inst w,
+  reach w -> (forall k sid, In (k, sid) inst -> 0 <= sid /\ get_show w sid <> None) ->
+  let w' := stop_all now ctx inst w in
+  reach w' /\
+  (forall s, 0 <= s -> get_show w s <> None -> get_show w' s <> None) /\
+  (forall s r, 0 <= s -> get_show w s = Some r -> r_stopped r = true ->
+               exists r', get_show w' s = Some r' /\ r_stopped r' = true) /\
+  (forall k sid, In (k, sid) inst -> fst k = ctx -> exists r', get_show w' sid = Some r' /\ r_stopped r' = true).
+Proof.
+  induction inst as [|[k0 sid0] inst IH]; intros w Hr Hin; cbv zeta; cbn [stop_all].
+  - repeat split; auto. intros s r _ E St. eauto. intros k sid [].
+  - destruct (Hin k0 sid0 (or_introl eq_refl)) as (H0 & Hn0).
+    set (w1 := if fst k0 =? ctx then world_op now sid0 Stop w else w).
+    assert (Hr1 : reach w1) by (unfold w1; destruct (fst k0 =? ctx); [constructor; auto|exact Hr]).
+    assert (Hs1 : forall s, 0 <= s -> get_show w s <> None -> get_show w1 s <> None).
+    { unfold w1. destruct (fst k0 =? ctx); [intros; apply some_stays; auto|auto]. }
+    assert (Hst1 : forall s r, 0 <= s -> get_show w s = Some r -> r_stopped r = true ->
+                     exists r', get_show w1 s = Some r' /\ r_stopped r' = true).
+    { unfold w1. destruct (fst k0 =? ctx); [intros; eapply stopped_stays; eauto|eauto]. }
+    destruct (IH w1 Hr1) as (A & B & C & D).
+    { intros k sid Hi. destruct (Hin k sid (or_intror Hi)) as (H1 & H2). split; auto. }
+    cbv zeta in A, B, C, D. split; [exact A|]. split; [auto|]. split.
+    + intros s r Hs E St. destruct (Hst1 s r Hs E St) as (r1 & E1 & St1). eapply C; eauto.
+    + intros k sid [Hi|Hi] Hc.
+      * inversion Hi; subst k0 sid0. unfold w1 in *. rewrite (proj2 (Z.eqb_eq _ _) Hc) in *.
+        destruct (get_show w sid) as [r0|] eqn:E0; [|congruence].
+        destruct (stop_stops now sid w r0 E0) as (r1 & E1 & St1). eapply C; eauto.
+      * eapply D; eauto.
+Qed.
+
+Lemma lookup_filter_ctx ctx k inst :
+  lookup k (filter (fun e => negb (fst (fst e) =? ctx)) inst) =
+  if fst k =? ctx then None else lookup k inst.
+Proof.
+  induction inst as [|[k' v'] inst IH]; cbn; [destruct (fst k =? ctx); reflexivity|].
+  destruct (fst k' =? ctx) eqn:Ec; cbn.
+  - rewrite IH. destruct (fst k =? ctx) eqn:Ek; [reflexivity|].
+    destruct (ckey_eqb k k') eqn:E; [|reflexivity]. apply ckey_eqb_eq in E. subst k'. congruence.
+  - destruct (ckey_eqb k k') eqn:E.
+    + apply ckey_eqb_eq in E. subst k'. rewrite Ec. reflexivity.
+    + exact IH.
+Qed.
+
+(* a mode stops: every show started under its context is stopped, owns no live light entry, and the context's
+   dictionary is empty *)
+Lemma p_clear_spec now ctx p :
+  pinv p ->
+  pinv (p_clear now ctx p) /\
+  (forall sid key, In (sid, (ctx, key)) (p_hist p) ->
+     (exists r', get_show (p_w (p_clear now ctx p)) sid = Some r' /\ r_stopped r' = true) /\
+     no_live sid (w_lights (p_w (p_clear now ctx p))) /\
+     lookup (ctx, key) (p_inst (p_clear now ctx p)) = None).
+Proof.
+  intros [R S F B L].
+  assert (Hin : forall k sid, In (k, sid) (p_inst p) -> 0 <= sid /\ get_show (p_w p) sid <> None).
+  { intros k sid Hi. apply (S sid k). apply B. exact Hi. }
+  destruct (stop_all_spec now ctx (p_inst p) (p_w p) R Hin) as (A & Bs & C & D). cbv zeta in A, Bs, C, D.
+  assert (Stopped : forall sid key, In (sid, (ctx, key)) (p_hist p) ->
+            exists r', get_show (stop_all now ctx (p_inst p) (p_w p)) sid = Some r' /\ r_stopped r' = true).
+  { intros sid key Hi. destruct (S sid _ Hi) as (H0 & Hn).
+    destruct (get_show (p_w p) sid) as [r0|] eqn:E0; [|congruence].
+    destruct (r_stopped r0) eqn:St; [eapply C; eauto|].
+    pose proof (L sid _ r0 Hi E0 St) as Hb. apply lookup_in in Hb. eapply D; eauto. }
+  split.
+  - unfold p_clear. constructor; cbn [p_w p_inst p_hist]; auto.
+    + intros sid k Hi. destruct (S sid k Hi) as (H0 & Hn). split; auto.
+    + intros k sid Hi. apply filter_In in Hi. apply B. apply Hi.
+    + intros sid k r Hi E Hlive. rewrite lookup_filter_ctx.
+      destruct (S sid k Hi) as (H0 & Hn).
+      destruct (get_show (p_w p) sid) as [r0|] eqn:E0; [|congruence].
+      destruct (r_stopped r0) eqn:St.
+      * destruct (C sid r0 H0 E0 St) as (r' & E' & St'). congruence.
+      * destruct (fst k =? ctx) eqn:Ek.
+        -- apply Z.eqb_eq in Ek. destruct k as [c key]. cbn in Ek. subst c.
+           destruct (Stopped sid key Hi) as (r' & E' & St'). congruence.
+        -- eapply L; eauto.
+  - intros sid key Hi. destruct (Stopped sid key Hi) as (r' & E' & St'). unfold p_clear. cbn [p_w p_inst].
+    split; [eauto|]. split.
+    + destruct (S sid _ Hi) as (H0 & _). eapply stop_clears_context_l; eauto.
+    + rewrite lookup_filter_ctx. cbn [fst]. rewrite Z.eqb_refl. reflexivity.
+Qed.
+
+(* histories of the player: any actions for any (context, key) at any instants, clear_context of any context,
+   timer expiries of any show, removal-delay expiries of any light *)
+Inductive preach : pstate -> Prop :=
+| P0 w : reach w -> preach (mkP w [] [])
+| PAct p now k a : preach p -> act_ok a p -> preach (p_act now k a p)
+| PTick p d sid : preach p -> 0 <= sid -> preach (p_tick d sid p)
+| PFade p d k key : preach p -> preach (p_fade d k key p)
+| PClear p now ctx : preach p -> preach (p_clear now ctx p).
+
+Lemma preach_inv p : preach p -> pinv p.
+Proof.
+  induction 1 as [w Hr | p now k a _ IH Hok | p d sid _ IH Hsid | p d k key _ IH | p now ctx _ IH].
+  - constructor; cbn; auto; try contradiction; try discriminate.
+  - apply pinv_act; assumption.
+  - unfold p_tick. apply pinv_world_op; assumption.
+  - apply pinv_fire. exact IH.
+  - apply p_clear_spec. exact IH.
+Qed.
+
+(* at most one running show per (context, key): two shows started through the player under the same
+   (context, key) that both have not stopped are the same show *)
+Lemma one_show_per_key_l p k sid1 sid2 r1 r2 :
+  preach p -> In (sid1, k) (p_hist p) -> In (sid2, k) (p_hist p) ->
+  get_show (p_w p) sid1 = Some r1 -> get_show (p_w p) sid2 = Some r2 ->
+  r_stopped r1 = false -> r_stopped r2 = false -> sid1 = sid2.
+Proof.
+  intros Hp H1 H2 E1 E2 L1 L2. destruct (preach_inv p Hp) as [R S F B L].
+  pose proof (L _ _ _ H1 E1 L1). pose proof (L _ _ _ H2 E2 L2). congruence.
+Qed.
+
+(* the stop action for a key stops exactly the show bound to it: that show is stopped and owns no live light
+   entry, the key is free, every other show is what it was *)
+Lemma stop_by_key_l p now k sid :
+  preach p -> lookup k (p_inst p) = Some sid ->
+  let p' := p_act now k AStop p in
+  (exists r', get_show (p_w p') sid = Some r' /\ r_stopped r' = true) /\
+  no_live sid (w_lights (p_w p')) /\
+  lookup k (p_inst p') = None /\
+  (forall k', k' <> k -> lookup k' (p_inst p') = lookup k' (p_inst p)) /\
+  (forall s, 0 <= s -> s <> sid -> get_show (p_w p') s = get_show (p_w p) s) /\
+  (forall s, s <> sid -> others s (w_lights (p_w p')) = others s (w_lights (p_w p))).
+Proof.
+  intros Hp E. destruct (preach_inv p Hp) as [R S F B L].
+  destruct (S sid k (B _ _ (lookup_in _ _ _ E))) as (H0 & Hn).
+  destruct (get_show (p_w p) sid) as [r0|] eqn:E0; [|congruence].
+  cbv zeta. cbn [p_act]. rewrite E. cbn [p_w p_inst].
+  split; [eapply stop_stops; eauto|].
+  split; [eapply stop_request_clears_l; eauto|].
+  split; [apply lookup_unbind_same|].
+  split; [intros k' Hd; apply lookup_unbind_other; exact Hd|].
+  split; [intros s Hs Hd; apply get_show_op_other; auto|].
+  intros s Hd. apply world_op_frame. exact Hd.
+Qed.
+
+
+Lemma mode_stop_clears_l p now ctx sid key :
+  preach p -> In (sid, (ctx, key)) (p_hist p) ->
+  (exists r', get_show (p_w (p_clear now ctx p)) sid = Some r' /\ r_stopped r' = true) /\
+  no_live sid (w_lights (p_w (p_clear now ctx p))) /\
+  lookup (ctx, key) (p_inst (p_clear now ctx p)) = None.
+Proof. intros Hp Hi. apply (proj2 (p_clear_spec now ctx p (preach_inv p Hp))). exact Hi. Qed.
